@@ -44,7 +44,7 @@ func specEncT2Req(keyID uint8, blinded string) string {
 //@ props C01 C03 C04 C16
 //@ ensures ok == (len(data) >= 3+Nk && data[0] == 0 && data[1] == 2)
 //@ ensures ok ==> r.TokenKeyID == data[2] && sameslice(r.BlindedReq, data[3:3+Nk])
-//@ ensures ok ==> (r.raw == nil || string(r.raw) == specEncT2Req(r.TokenKeyID, string(r.BlindedReq)))
+//@ ensures[C01 C04 C16] ok ==> (r.raw == nil || string(r.raw) == specEncT2Req(r.TokenKeyID, string(r.BlindedReq)))
 //@ assigns r.TokenKeyID, r.BlindedReq, r.raw
 //@ alloc 0
 //@ end
